@@ -126,7 +126,9 @@ PROPERTIES = {
                      # CACHEMIX: the versions are written through a node cache; one side is opened through it (1: old, 2: new), the other without a cache
                      [H("HarnessC07a", b(N=33, K=1, MODE=1, LRULER=1, CONCRETEKEYS=1, Lmax=5, CACHEMIX=m), sample_every=20, max_steps=20000000) for m in (1, 2)] + [H("HarnessC07a", b(N=3, K=2, MODE=1, CACHEMIX=m)) for m in (1, 2)] +
                      # directed: a wide, gap-rich tree (alternating layers 0/5, height 3) that one symbolic insert grows to height 4
-                     [H("HarnessC07a", b(N=16, K=1, MODE=1, LALT=5, CONCRETEKEYS=1, Lmax=5), sample_every=20, max_steps=20000000)],
+                     [H("HarnessC07a", b(N=16, K=1, MODE=1, LALT=5, CONCRETEKEYS=1, Lmax=5), sample_every=20, max_steps=20000000),
+                      # ... and one whose gaps hold whole subtrees (every 8th key at layer 7, ruler layers <= 2 in between; height 5 -> 6): 2*D+2 holds here
+                      H("HarnessC07a", b(N=64, K=1, MODE=1, LALT=7, LALTEVERY=8, LALTCAP=2, CONCRETEKEYS=1, Lmax=7), sample_every=50, max_steps=200000000)],
             "thorough": [H("HarnessC07a", b(N=3, K=2, MODE=1), sample_every=500), H("HarnessC07a", b(N=4, K=1, MODE=1), sample_every=500), H("HarnessC07a", b(N=3, K=3, MODE=3), sample_every=500), H("HarnessC07a", b(N=3, K=3, MODE=7), sample_every=500), H("HarnessC07a", b(N=4, K=2, MODE=7), sample_every=500)],
         },
         "must_reach": ["C15.difflinks-reads", "C15.diffiter-reads", "C15.cursor-reads", "C15.same-version-no-reads"],
